@@ -104,11 +104,24 @@ func isIndirect(mode int) bool {
 // Step executes the instruction at pc on core (modified in place).
 // m core size, r read limit, w write limit.
 func Step(core []Instr, m, r, w, pc int) StepResult {
+	return step(core, m, r, w, pc, false)
+}
+
+// StepNoLimits is the step with read/write limits ignored altogether
+// (pointers are only reduced modulo the core size).
+func StepNoLimits(core []Instr, m, pc int) StepResult {
+	return step(core, m, m, m, pc, true)
+}
+
+func step(core []Instr, m, r, w, pc int, nofold bool) StepResult {
 	var res StepResult
 	ev := func(k, a int) { res.Events = append(res.Events, Event{k, a}) }
 	ev(EvExec, pc)
 	IR := core[pc]
 	fold := func(p, limit int) int {
+		if nofold {
+			return p % m
+		}
 		f := Fold(p, limit, m)
 		if f != p%m {
 			res.FoldChanged = true
